@@ -243,6 +243,7 @@ class VQueue:
     def __init__(self, sched, maxsize=0):
         self._s = sched
         self.items = collections.deque()
+        self.queue = self.items          # queue.Queue keeps its items in a deque of this name; code that peeks finds them here
         self.unfinished = 0
         self.Empty = _queue.Empty
 
